@@ -111,7 +111,12 @@ fn(H2 + ".handle", params={"event": _ev.IO_EVENTS}, task="reader",
    ],
    props=("C04",))
 
-fn(H2 + ".stream_send", params={"event": _ev.STREAM_EVENTS}, task="app", model_opts={"call_requires": GOAWAY_LAST,
+# C09 / C08 "none waits forever": whoever waits for a send buffer to drain has, in the same atomic
+# step, made the stream schedulable and woken the send task -- drain() returns only when the send
+# task pops the buffer empty, and nothing else will make it look at the stream (a buffer that never
+# held data is not "empty" until a pop has said so)
+DRAIN_WOKEN = {"StreamBuffer.drain": [("C09.drain.send-task-woken", "sel(self.priority.active, event.stream_id) and self.has_data.flag", "C09,C02,C08")]}
+fn(H2 + ".stream_send", params={"event": _ev.STREAM_EVENTS}, task="app", model_opts={"call_requires": dict(GOAWAY_LAST, **DRAIN_WOKEN),
                # an exception out of stream_send is raised into the application (C03 "messages an application
                # sends after closure are accepted silently instead of raising") as well as a C04 matter
                "exception_props": ("C04", "C03")},
